@@ -142,6 +142,7 @@ def run_series(s):
     abs_ok = [abstract(o) == strip(t) for o, t in zip(objs, trees)]
     before = snapshot(objs)
     results = []
+    interpolators = {}     # one interpolator per (order, method), queried repeatedly (multi-step history)
     for q in s["queries"]:
         order = q["perm"]
         supplied = [objs[j] for j in order]
@@ -149,7 +150,10 @@ def run_series(s):
         value = build(q["value"])
         r = {}
         try:
-            interp = cls(supplied)
+            key = (tuple(order), q["method"])
+            if key not in interpolators:
+                interpolators[key] = cls(list(supplied))
+            interp = interpolators[key]
             p = interp
             for name in q["path"]:
                 p = getattr(p, name)
@@ -177,6 +181,7 @@ def run_series(s):
             r["changed"] = [i for i, (a, b) in enumerate(zip(before, after)) if a != b]
             objs = [build(t) for t in trees]      # fresh inputs so later queries stay meaningful
             before = snapshot(objs)
+            interpolators = {}
         r["oracle"] = [oracle_value(req) for req in q.get("requests", [])]
         results.append(r)
     return {"abs_ok": abs_ok, "queries": results}
